@@ -209,3 +209,27 @@ Proof.
   - eexists [EvRd _ _; EvRd _ _]. split; [|split; intros [H|[H|[]]]; discriminate H].
     log_norm. apply (new_events_app _ [EvRd _ _; EvRd _ _; EvRETI]). reflexivity.
 Qed.
+
+(* ---- C09: one element of a block instruction ---- *)
+Lemma ld_element u (dec : bool) cpu : g_Memory cpu = UserMem ->
+  let step := fun w : Z => if dec then u16 (w - 1) else u16 (w + 1) in
+  let hl := regw (g_HL cpu) in let de := regw (g_DE cpu) in let bc := regw (g_BC cpu) in
+  let cpu' := block_step u BLD dec cpu in
+  g_HL cpu' = wreg (step hl) /\ g_DE cpu' = wreg (step de) /\ g_BC cpu' = wreg (u16 (bc - 1)) /\
+  ram (g_W cpu') = upd (ram (g_W cpu)) de (u8 (ram (g_W cpu) hl)) /\ g_PC cpu' = g_PC cpu /\
+  get_F cpu' = ldx_flags (get_A cpu) (u8 (ram (g_W cpu) hl)) (u16 (bc - 1)) (get_F cpu).
+Proof. intros E. user_mem cpu E. destruct dec; log_norm; repeat split. Qed.
+Lemma cp_element u (dec : bool) cpu : g_Memory cpu = UserMem ->
+  let step := fun w : Z => if dec then u16 (w - 1) else u16 (w + 1) in
+  let hl := regw (g_HL cpu) in let bc := regw (g_BC cpu) in
+  let cpu' := block_step u BCP dec cpu in
+  g_HL cpu' = wreg (step hl) /\ g_BC cpu' = wreg (u16 (bc - 1)) /\ ram (g_W cpu') = ram (g_W cpu) /\ get_A cpu' = get_A cpu /\
+  get_F cpu' = cpx_flags (get_A cpu) (u8 (ram (g_W cpu) hl)) (u16 (bc - 1)) (get_F cpu).
+Proof. intros E. user_mem cpu E. destruct dec; log_norm; repeat split. Qed.
+Lemma io_element u (dec : bool) cpu : g_IO cpu = true -> g_Memory cpu = UserMem ->
+  let step := fun w : Z => if dec then u16 (w - 1) else u16 (w + 1) in
+  g_BC_Hi (block_step u BIN dec cpu) = u8 (g_BC_Hi cpu - 1) /\ g_HL (block_step u BIN dec cpu) = wreg (step (regw (g_HL cpu))) /\
+  g_BC_Hi (block_step u BOUT dec cpu) = u8 (g_BC_Hi cpu - 1) /\ g_HL (block_step u BOUT dec cpu) = wreg (step (regw (g_HL cpu))).
+Proof. intros E Em. user_mem cpu E. cbv_struct_in Em. subst. destruct dec; log_norm; repeat split. Qed.
+Lemma block_step_pc u k (dec : bool) cpu : g_PC (block_step u k dec cpu) = g_PC cpu.
+Proof. open_cpu cpu. destruct k, dec; log_norm; try reflexivity; destruct_ifs; log_norm; reflexivity. Qed.
